@@ -177,6 +177,15 @@ func cmdCalls(args []string) error {
 		tr.Stop()
 		events := tr.Events(0)
 		env.Close()
+		if dump := os.Getenv("VERIF_DUMP_ALL"); dump != "" {
+			// debugging aid: every recorded event, unfiltered
+			if dw, err := vtrace.NewWriter(dump); err == nil {
+				for _, e := range events {
+					dw.Write(0, e)
+				}
+				dw.Close()
+			}
+		}
 		for _, e := range events {
 			if e.Tok != 0 && callsAlphabet[e.Ev] {
 				byTok[e.Tok] = append(byTok[e.Tok], e)
